@@ -67,6 +67,7 @@ type Run struct {
 	// DgramFilter, if set, sees every datagram about to be delivered under any policy; true = consumed.
 	DgramFilter  func(seq int) bool
 	yields       int
+	preempts     int
 	MaxSteps     int
 	peers        []*Peer
 	simEnd       time.Duration
@@ -251,7 +252,40 @@ func (r *Run) YieldsOn(label string) {
 	}
 }
 
+// PreemptOn is YieldsOn with one more kind of scheduling point: at one lock operation in 48 the goroutine is
+// taken off the processor for 1-64 simulated microseconds, as a loaded host does to a thread. Under the
+// simulator that is long enough for the network to make any number of round trips meanwhile (deliveries take
+// no simulated time), so a goroutine can be overtaken between two of its critical sections by everything that
+// depends on the peer answering - which Gosched alone, confined to goroutines that are runnable now, cannot do.
+func (r *Run) PreemptOn(label string) {
+	seed := uint64(r.Ch.Pick(1<<16, label))
+	if seed == 0 {
+		simrt.Yield = nil
+		return
+	}
+	state := seed*0x9E3779B97F4A7C15 + uint64(r.Idx)
+	simrt.Yield = func() {
+		state += 0x9E3779B97F4A7C15
+		z := state
+		z = (z ^ (z >> 30)) * 0xBF58476D1CE4E5B9
+		z = (z ^ (z >> 27)) * 0x94D049BB133111EB
+		z ^= z >> 31
+		switch {
+		case z%48 == 0:
+			r.preempts++
+			time.Sleep(time.Duration(1+(z>>8)%64) * time.Microsecond)
+		case z&3 == 0:
+			r.yields++
+			runtime.Gosched()
+		}
+	}
+}
+
 func (r *Run) YieldsOff() {
+	if r.preempts > 0 {
+		r.CountN("lock_preemptions", r.preempts)
+		r.preempts = 0
+	}
 	simrt.Yield = nil
 	if r.yields > 0 {
 		r.CountN("lock_yields", r.yields)
